@@ -11,7 +11,9 @@ import common as C
 # the string alphabet of the property: plain, space, quotes, '=', leading dash, empty, '::'
 STRS = ["foo", "a b", "q\"'x", "k=v", "-d", "", "a::b"]
 CLEAN = ["foo", "a b", "q\"'x", "k=v", ""]
-ATTRS = ["#[cfg(test)]", "#[doc = \"x\"]"]
+# --field-attr takes the attribute without #[..]; VALUES with '=' and quotes inside
+ATTRS = ["cfg(test)", "doc = \"the x coordinate\"", "cfg(feature = \"a=b\")", "cfg(any(feature = \"a,b\", test))"]
+TPAIRS = [["Point", "x"], ["Point", "y"]]
 SEQ_GROUPS = {
     "lists": ["allowlisted_types", "raw_lines", "ctypes_prefix"],
     "maps": ["module_lines", "abi_overrides", "field_attr_patterns"],
@@ -52,6 +54,8 @@ def universe(table, headers, abspaths, strs=None, seqrows=(), clean=False, seq_s
             r["subsets"] = [allb, [b for b in allb if b != "methods"], ["types"], ["functions", "vars"]] + ([] if clean else [[]])
         if r["class"] == "map":
             r["keys"] = ["root", "root::x"] if r["shape"] == "two_values" else ["C", "stdcall", "C-unwind"]
+            # a regex with '=' inside that matches a function of the header (REGEX=ABI is cut at the last '=')
+            r["extra"] = [] if r["shape"] == "two_values" else ["pfn|k=v"]
         if r["class"] == "optstr":
             r.setdefault("kind", "string")
             if r["field"] == "wasm_import_module_name":
@@ -65,7 +69,7 @@ def universe(table, headers, abspaths, strs=None, seqrows=(), clean=False, seq_s
             "eq": [s for s in strs if "=" in s], "colons": [s for s in strs if "::" in s],
             "tstrs": [x for x in (seq_strs or strs) if not clean or ("=" not in x and "::" not in x)],
             "wasm": [[x, '#[link(wasm_import_module = "%s")]' % x] for x in (seq_strs or strs)],
-            "attrs": ATTRS, "headers": headers, "clang": ["-DX=1", "-DY"], "abspaths": abspaths, "depfiles": [os.path.join(os.path.dirname(abspaths[0]), "out.d")],
+            "attrs": ATTRS, "tpairs": TPAIRS, "headers": headers, "clang": ["-DX=1", "-DY"], "abspaths": abspaths, "depfiles": [os.path.join(os.path.dirname(abspaths[0]), "out.d")],
             "latest": 82, "seqrows": seq}
 
 
